@@ -285,6 +285,8 @@ def compare_state(funcs, exp, o):
             return "CheckSummarySentence"
         fc = exp["fileCounts"]
         fc = {i + 1: list(x) for i, x in enumerate(fc)} if isinstance(fc, tuple) else {k: list(v) for k, v in fc.items()}
+        if not e["overview"]:
+            return "Machinery:ScanOverviewUnparsed"  # the layout of the table is not the property's subject
         for fid, (fname, lang) in FILES.items():
             row = e["overview"].get(lang)
             if row is None:
@@ -320,6 +322,8 @@ def run(tier: str) -> int:
             clause = "NormalReturn:" + (r[1] if r[0] == "exc" else "timeout")
         else:
             clause = compare_state(funcs, exp, r[1])
+        if clause and clause.startswith("Machinery:"):
+            raise MachineryError(f"{clause} for {funcs}: {r[1].get('e2e', {}).get('overview')}")
         if clause:
             rep.fail({"clause": clause, "functions": [list(x) for x in funcs]}, {"kind": "state", "funcs": [list(x) for x in funcs], "e2e": e2e,
                                                                                 "expected": json.loads(json.dumps(exp, default=list)), "observed": r[1] if r[0] == "ok" else list(r)})
